@@ -37,7 +37,7 @@ BASES = ["traceback", "Failed expectation", "foo", "fxd", "diff", "reason"]
 
 def normalise_prog(p):
     script = {u: list(p["script"].get(u, [])) for u in UNITS}
-    return {"decor": bool(p["decor"]), "onexc": bool(p["onexc"]), "preforce": bool(p.get("preforce", False)), "script": script}
+    return {"decor": bool(p["decor"]), "onexc": bool(p["onexc"]), "preforce": bool(p.get("preforce", False)), "xfdec": bool(p.get("xfdec", False)), "script": script}
 
 
 def split_name(nm):
@@ -98,7 +98,12 @@ def observe(prog, flavours):
     first = None
     for fl in flavours:
         env = synth.Env(prog)
-        cls = synth.SynthSkipped if prog["decor"] else (synth.SynthRunTestWith if fl == "rtw" else synth.SynthPlain)
+        cls = (
+            synth.SynthSkipped if prog["decor"]
+            else synth.SynthExpectedFailure if prog["xfdec"]
+            else synth.SynthRunTestWith if fl == "rtw"
+            else synth.SynthPlain
+        )
         case = cls(env)
         o, res = synth._run(case, env, fl)
         flav.append(o)
@@ -237,6 +242,7 @@ def run(tier, pid):
         plan = [
             ("rt_exp_faults.cfg", ALL, {}),
             ("rt_exp_faults1.cfg", ("ext", "py26", "stream", "rtw"), {}),
+            ("rt_exp_preforce.cfg", ("ext", "tt"), {}),
             ("rt_exp_details.cfg", ("ext", "tt"), {}),
             ("rt_exp_nested.cfg", ("ext",), {}),
             ("rt_exp_triples.cfg", ("ext", "py27", "stream"), {}),
@@ -247,6 +253,7 @@ def run(tier, pid):
         plan = [
             ("rt_exp_faults_t.cfg", ALL, {}),
             ("rt_exp_faults1.cfg", ALL, {}),
+            ("rt_exp_preforce.cfg", ("ext", "tt"), {}),
             ("rt_exp_faults3.cfg", ("ext", "tt", "stream"), {}),
             ("rt_exp_details_t.cfg", ("ext", "tt"), {}),
             ("rt_exp_details2.cfg", ("ext",), {}),
